@@ -97,6 +97,16 @@ CHECKS["C17"] = ("exploration",
    "All ordered selections of up to 4 behaviours from a 7-item catalogue (2800 per listener kind in thorough, all of length <= 2 plus 150 random longer ones in quick) are replayed against a fresh release-profile tacd.",
    "Catalogue-bounded: behaviours outside the catalogue are not explored.",
    "DESIGN.md 4 C17")
+CHECKS["C18"] = ("exploration",
+   "exhaustive enumeration of root-certificate source combinations x server chains x file states against a TLS-wrapped mock CA; oracle = trust model (right root listed or in the system store, chain valid for the host) vs requests seen by the CA and the attempt's outcome",
+   "The three sources (command line, endpoint, global) with right / decoy / absent / unreadable / malformed files, four kinds of server chain and three system stores are enumerated; no request (hence no JWS) may reach an endpoint whose chain does not validate, and every source alone must be honoured.",
+   "Finite catalogue of chain defects (unknown root, other host name, expired); OpenSSL performs the path validation on the daemon side.",
+   "DESIGN.md 4 C18")
+CHECKS["C20"] = ("exploration",
+   "property-based testing (proptest) of the shipped default_hooks.toml through the real daemon against a validating mock CA (reads the http-01 file through the documented mapping, performs a real acme-tls/1 handshake with the documented address or socket) over several consecutive issuances; oracle = validation success, leftovers scan, git blobs",
+   "Groups http-01-echo, tls-alpn-01-tacd-tcp, tls-alpn-01-tacd-unix alone and with git, environment variables set or defaulted, 1..3 identifiers, 1..3 issuances in one run; after each issuance proof files, responder processes, pid files and sockets must be gone and git must hold every stored file.",
+   "HTTP_ROOT default (/var/www) and TACD_PORT default (5001) are not exercised in parallel runs; the CA is patient for 5 s (tacd daemonises before it listens).",
+   "DESIGN.md 4 C20")
 PENDING = {}
 
 props = [json.loads(l) for l in open("/verif/properties.jsonl")]
